@@ -132,7 +132,7 @@ func (s respScript) header(key string) http.Header {
 		h["Sec-Websocket-Accept"] = []string{hsclient.AcceptFor(otherKey)}
 	}
 	if s.Proto != "" {
-		h["Sec-Websocket-Protocol"] = []string{s.Proto}
+		h["Sec-Websocket-Protocol"] = strings.Split(s.Proto, "\n") // "\n" separates header lines
 	}
 	if s.Ext != "" {
 		h["Sec-Websocket-Extensions"] = []string{s.Ext}
@@ -263,7 +263,7 @@ var (
 	c13ConnVals  = []string{"Upgrade", "upgrade", "keep-alive, Upgrade", "keep-alive", "", hsAbsent}
 	c13UpgVals   = []string{"websocket", "WebSocket", "websockets", "h2c, websocket", "", hsAbsent}
 	c13Accepts   = []string{"correct", "other-key", "absent"}
-	c13RespProto = []string{"", "chat", "CHAT", "other", "cha", "chatx"} // none, requested, other letter case, unrequested, proper prefix / extension of a requested one
+	c13RespProto = []string{"", "chat", "CHAT", "other", "cha", "chatx", "other, chat", "chat, other", "other\nchat", "chat\nother"} // none, requested, other letter case, unrequested, proper prefix / extension of a requested one
 	c13ReqLists  = [][]string{nil, {"chat"}, {"chat", "echo"}}
 )
 
